@@ -146,21 +146,49 @@ def run(prog: Program, res: Result) -> None:  # noqa: PLR0912, PLR0915
         m = en.methods.get(nm)
         if m is None:
             raise AnalysisError(f"ExtendsNode.{nm} vanished")
-        body = [norm(s, 200) for s in m.node.body if not (isinstance(s, ast.Expr) and isinstance(s.value, ast.Constant))]
-        what = f"ExtendsNode.{nm}: build stacks from context.template, render base, clear, raise StopRender"
-        ok = (
-            len(body) == 4
-            and "_build_block_stacks" in body[0]
-            and "context.template" in body[0]
-            and "base_template.render_with_context" in body[1]
-            and "(context, buffer)" in body[1]
-            and body[2] == "context.tag_namespace['extends'].clear()"
-            and body[3] == "raise StopRender"
-        )
-        if ok:
-            res.ok("C08.R3", f"{EXT}:{m.node.lineno} ExtendsNode.{nm}", what, "four-statement shape intact")
+        what = f"ExtendsNode.{nm}: builds this chain's stacks in a mapping of its own, renders the base with them, puts the previous mapping back on every exit and stops the child"
+        ecfg = CFG(m.node)
+        problems = []
+
+        def _is(n, pred):  # noqa: ANN001, ANN202
+            return n.kind == "stmt" and n.node is not None and pred(n.node)
+
+        NS = "context.tag_namespace['extends']"
+        fresh = [n for n in ecfg.nodes if _is(n, lambda x: isinstance(x, ast.Assign) and any(norm(t) == NS for t in x.targets) and isinstance(x.value, ast.Call) and norm(x.value.func) in ("defaultdict", "dict"))]
+        saves = [n for n in ecfg.nodes if _is(n, lambda x: isinstance(x, ast.Assign) and norm(x.value) == NS and isinstance(x.targets[0], ast.Name))]
+        saved_names = {n.node.targets[0].id for n in saves}
+        restores = [n for n in ecfg.nodes if _is(n, lambda x: isinstance(x, ast.Assign) and any(norm(t) == NS for t in x.targets) and isinstance(x.value, ast.Name) and x.value.id in saved_names)]
+        clears = [n for n in ecfg.nodes if _is(n, lambda x: isinstance(x, ast.Expr) and norm(x.value) == NS + ".clear()")]
+        builds = [n for n in ecfg.nodes if n.kind == "stmt" and n.node is not None and any(isinstance(c, ast.Call) and norm(c.func) in ("_build_block_stacks", "_build_block_stacks_async") and len(c.args) >= 2 and norm(c.args[0]) == "context" and norm(c.args[1]) == "context.template" for c in ast.walk(n.node))]
+        renders = [n for n in ecfg.nodes if n.kind == "stmt" and n.node is not None and any(isinstance(c, ast.Call) and isinstance(c.func, ast.Attribute) and c.func.attr in ("render_with_context", "render_with_context_async") and [norm(a) for a in c.args] == ["context", "buffer"] for c in ast.walk(n.node))]
+        stops = [n for n in ecfg.nodes if _is(n, lambda x: isinstance(x, ast.Raise) and x.exc is not None and norm(x.exc) == "StopRender")]
+        if len(builds) != 1 or len(renders) != 1:
+            problems.append("the chain is not built from context.template and rendered once with (context, buffer)")
         else:
-            res.fail("C08.R3", file=EXT, line=m.node.lineno, qualname=f"ExtendsNode.{nm}", construct=f"{nm} body: {body}", message="extends no longer renders the base template, clears the stacks and stops the child (text outside blocks in the child would be rendered, or stacks leak into the next render of this context)", what=what)
+            if not fresh or not ecfg.all_paths_pass(builds[0], lambda n: n in fresh):
+                problems.append("the chain's blocks are stacked into the mapping already in use (an enclosing chain's stacks get this chain's blocks)")
+            if clears:
+                problems.append("the shared mapping is cleared after the base render (an enclosing chain loses its stacks)")
+            # every exit after the swap restores the previous mapping
+            if fresh:
+                for ex_node, kind in ((ecfg.raise_exit, "an exception"), (ecfg.exit, "a normal return")):
+                    for src, _lab in ex_node.pred:
+                        if src in stops or src in fresh or src.id not in ecfg.reachable(fresh[0]):
+                            continue
+                        if not ecfg.all_paths_pass(src, lambda n: n in restores, start=fresh[0]) and src not in restores:
+                            problems.append(f"an exit by {kind} via `{norm(src.node, 40)}` leaves the fresh mapping installed")
+                            break
+            if not stops or not all(ecfg.all_paths_pass(st, lambda n: n in renders) for st in stops):
+                problems.append("StopRender is not raised after the base render")
+            if not any(src in stops for src, _l in ecfg.raise_exit.pred):
+                problems.append("no StopRender")
+            normal_exits = [src for src, _l in ecfg.exit.pred]
+            if normal_exits:
+                problems.append("the method can return normally: the rest of the child template would be rendered")
+        if not problems:
+            res.ok("C08.R3", f"{EXT}:{m.node.lineno} ExtendsNode.{nm}", what, "fresh mapping before the build; restored in finally; StopRender after the render")
+        else:
+            res.fail("C08.R3", file=EXT, line=m.node.lineno, qualname=f"ExtendsNode.{nm}", construct=f"{nm}: " + "; ".join(sorted(set(problems))), message="ExtendsNode does not keep its chain's block stacks to itself or does not stop the child: " + "; ".join(sorted(set(problems))), what=what)
     tmpl = prog.cls("liquid2.template.Template")
     for nm in ("render_with_context", "render_with_context_async"):
         m = tmpl.methods.get(nm)
